@@ -102,7 +102,7 @@ int main(int argc, char** argv) {
     Rng r(seed);
     for (int k = 0; k < nsys; ++k) {
         {
-            RandSystem rs; Force::DiscreteForces df(rs.forces, rs.matter);
+            RandSystem rs; rs.ntypes = NMOBTYPES_ALL; Force::DiscreteForces df(rs.forces, rs.matter);
             int nb = r.I(1, maxb); int shape = r.I(0, 2);
             try { rs.build(r, nb, shape); } catch (const std::exception& e) { std::printf("SKIP %s\n", e.what()); continue; }
             try { emit(rs, df, r, k % 4 == 3, false); } catch (const std::exception& e) { std::printf("SKIP %s\n", e.what()); }
